@@ -1,45 +1,55 @@
-//! cache_trace: runs operation traces on the real LruCache and prints, per step, the resolved
-//! operation (OP) and a canonical observation (OB) that includes hidden state read through the
-//! `verif-hooks` snapshot.
-//!
-//!   cache_trace gen <seed> <ntraces> <steps> [profile]   generate structured random traces and run them
-//!   cache_trace replay <file>                            re-execute the CFG/OP lines of a stream file
-//!
-//! Stream format (one record per line):
-//!   CFG <slot> <max> <cap> <hasher> <E> <VS> <universe>
-//!   OP <slot> <name> <args...>
-//!   OB <res>|<ents>|<cur>|<max>|<cap>|<nb>|<dropped>|<hashes>|<visits>|<struct>|<flags>|<calls>
-//!   END
-use harness::trace::*;
+//! cache_trace: trace generator / replayer / small-scope enumerator for the real LruCache.
+//!   cache_trace gen <seed> <ntraces> <steps> [profile] [types]   types: dd (default) | pd | dp | df
+//!   cache_trace replay <file>        (the instantiation is read from the file's first CFG line)
+//!   cache_trace exhaust <depth> <alphabet 0|1> <hasher>
 use harness::*;
-use std::io::Write as _;
 
 #[global_allocator]
 static ALLOC: failalloc::FailAlloc = failalloc::FailAlloc;
+
+macro_rules! run_with {
+    ($m:ident, $args:expr, $out:expr) => {{
+        use harness::$m as tm;
+        let args: &Vec<String> = $args;
+        let out = $out;
+        match args.get(1).map(|s| s.as_str()) {
+            Some("gen") => {
+                let seed: u64 = args[2].parse().unwrap();
+                let n: u64 = args[3].parse().unwrap();
+                let steps: usize = args[4].parse().unwrap();
+                let profile = args.get(5).map(|s| s.as_str()).unwrap_or("mix");
+                for t in 0..n { tm::gen_trace(seed, t, steps, profile, out); }
+            }
+            Some("replay") => tm::replay(&args[2], out),
+            Some("exhaust") => {
+                let depth: usize = args[2].parse().unwrap();
+                let alphabet: u8 = args[3].parse().unwrap();
+                let hk: u8 = args.get(4).and_then(|s| s.parse().ok()).unwrap_or(0);
+                let n = tm::exhaust(depth, alphabet, hk, out);
+                eprintln!("exhaust: {} sequences", n);
+            }
+            _ => { eprintln!("usage: cache_trace gen <seed> <ntraces> <steps> [profile] [types] | replay <file> | exhaust <depth> <alphabet> <hasher>"); std::process::exit(2); }
+        }
+    }};
+}
 
 fn main() {
     std::panic::set_hook(Box::new(|_| {}));
     let args: Vec<String> = std::env::args().collect();
     let stdout = std::io::stdout();
     let mut out = std::io::BufWriter::with_capacity(1 << 20, stdout.lock());
-    match args.get(1).map(|s| s.as_str()) {
-        Some("gen") => {
-            let seed: u64 = args[2].parse().unwrap();
-            let n: u64 = args[3].parse().unwrap();
-            let steps: usize = args[4].parse().unwrap();
-            let profile = args.get(5).map(|s| s.as_str()).unwrap_or("mix");
-            for t in 0..n { gen_trace(seed, t, steps, profile, &mut out); }
-        }
-        Some("replay") => replay(&args[2], &mut out),
-        Some("exhaust") => {
-            // cache_trace exhaust <depth> <alphabet 0|1> <hasher>
-            let depth: usize = args[2].parse().unwrap();
-            let alphabet: u8 = args[3].parse().unwrap();
-            let hk: u8 = args.get(4).and_then(|s| s.parse().ok()).unwrap_or(0);
-            let n = exhaust(depth, alphabet, hk, &mut out);
-            eprintln!("exhaust: {} sequences", n);
-        }
-        _ => { eprintln!("usage: cache_trace gen <seed> <ntraces> <steps> [profile] | replay <file>"); std::process::exit(2); }
+    let ty: String = match args.get(1).map(|s| s.as_str()) {
+        Some("gen") => args.get(6).cloned().unwrap_or_else(|| "dd".into()),
+        Some("replay") => std::fs::read_to_string(&args[2]).ok().and_then(|s| s.lines().find(|l| l.starts_with("CFG "))
+            .and_then(|l| l.split_whitespace().nth(8).map(|x| x.to_string()))).unwrap_or_else(|| "dd".into()),
+        _ => "dd".into(),
+    };
+    match ty.as_str() {
+        "pd" => run_with!(trace_pd, &args, &mut out),
+        "dp" => run_with!(trace_dp, &args, &mut out),
+        "df" => run_with!(trace_df, &args, &mut out),
+        _ => run_with!(trace, &args, &mut out),
     }
+    use std::io::Write as _;
     out.flush().unwrap();
 }
